@@ -10,6 +10,7 @@ import (
 	"path/filepath"
 	"strconv"
 	"strings"
+	"time"
 
 	"github.com/douban/gobeansdb/cmem"
 	"github.com/douban/gobeansdb/config"
@@ -261,6 +262,47 @@ func protoBad(r *RNG, keys []string) []byte {
 
 var mutRNG *RNG
 
+// slowClient answers gets late (the store was slow)
+type slowClient struct {
+	mc.StorageClient
+	d time.Duration
+}
+
+func (s *slowClient) Get(key string) (*mc.Item, error) {
+	it, err := s.StorageClient.Get(key)
+	time.Sleep(s.d)
+	return it, err
+}
+
+func (s *slowClient) GetMulti(keys []string) (map[string]*mc.Item, error) {
+	m, err := s.StorageClient.GetMulti(keys)
+	time.Sleep(s.d)
+	return m, err
+}
+
+// protoStreamKeys: up to four distinct keys of storage commands of the stream (ordinary keys only)
+func protoStreamKeys(stream []byte) []string {
+	var ks []string
+	for _, line := range strings.Split(string(stream), "\r\n") {
+		ws := strings.Fields(line)
+		if len(ws) >= 5 && (ws[0] == "set" || ws[0] == "add" || ws[0] == "replace") && len(ws[1]) < 100 && !strings.HasPrefix(ws[1], "@") && !strings.HasPrefix(ws[1], "?") {
+			dup := false
+			for _, k := range ks {
+				if k == ws[1] {
+					dup = true
+				}
+			}
+			if !dup && store.IsValidKeyString(ws[1]) {
+				ks = append(ks, ws[1])
+			}
+		}
+		if len(ks) >= 4 {
+			break
+		}
+	}
+	return ks
+}
+
 // late: the commands of the overdue phase (nil: no such phase); set by the generator or by a `latestream` replay line
 var late []byte
 
@@ -349,6 +391,33 @@ func protoRun(c *Ctx, id string, cfg protoCfg, stream []byte, home string) {
 				res = " PANIC"
 			}
 			c.line("late n=%d led=%s%s => %s", after-before, ledger(), res, hx(lconn.out.Bytes()))
+			if e != nil || after == before {
+				break
+			}
+		}
+		// the slow phase: the command is read in time but the store answers late: the reply is replaced by
+		// PROCESS_TIMEOUT and dropped - the buffers of the values it carried must be released all the same.  Gets of the
+		// keys the stream wrote, through a storage client that answers 60 ms late, timeout 25 ms.  (Under load the READ may
+		// already be overdue: then the command takes the RECV_TIMEOUT path - the oracle is the same.)
+		config.MCConf.TimeoutMS = 25
+		var gets []byte
+		for _, k := range protoStreamKeys(stream) {
+			gets = append(gets, []byte("get "+k+"\r\n")...)
+		}
+		sconn := &memConn{in: gets}
+		ssc := mc.NewServerConnVerif(sconn)
+		slow := &slowClient{StorageClient: cl, d: 60 * time.Millisecond}
+		for steps := 0; !ssc.VerifClosing() && steps < 6; steps++ {
+			before := sconn.pos - ssc.VerifBuffered()
+			sconn.out.Reset()
+			var e error
+			p := guard(func() { e = ssc.ServeOnce(slow, stats) })
+			after := sconn.pos - ssc.VerifBuffered()
+			res := ""
+			if p != "" {
+				res = " PANIC"
+			}
+			c.line("late slow=1 n=%d led=%s%s => %s", after-before, ledger(), res, hx(sconn.out.Bytes()))
 			if e != nil || after == before {
 				break
 			}
